@@ -11,6 +11,8 @@ package supervisor
 // Each step is appended to one event log under a mutex that is held ACROSS the supervisor call, so the log
 // order is the real order of Signal / RunGroup calls.  The Lean driver (a) evaluates the Spec clauses of C18 on
 // the log itself and (b) checks that the model accepts the log (searching over the hidden processor steps).
+// The supervisor is built without options, and - scenarios in which no script panics, a second time - with the options
+// guardiand passes (WithPropagatePanic): tScenario.opts, optionScenarios, `opts=` in the trace's first line.
 
 import (
 	"bufio"
@@ -74,6 +76,67 @@ type tScenario struct {
 	// deadline).  Only set where every back-off and exit latency of the scenario is shorter by orders of magnitude, so
 	// that a service which is not back after it will evidently never be started again.
 	settleWait time.Duration
+	// The options supervisor.New is called with, by name (see tSupervisorOpts); nil = none.  They travel in the trace's
+	// first line (`opts=`), so the driver replays the model under the same configuration.
+	opts []string
+}
+
+// Every SupervisorOpt the package offers, by the name it has in the case lines.  guardiand builds its supervisor with
+// WithPropagatePanic (node/cmd/guardiand/node.go); it is the only option there is.
+var tSupervisorOpts = []struct {
+	name string
+	opt  SupervisorOpt
+	// may a scenario run under this option?  WithPropagatePanic: "prevents the Supervisor from catching panics in
+	// runnables" - a panicking service takes the whole process (this test binary) down, which is what the option is for
+	// and outside what C18 states ("returns or panics (with panic capture on)"): only scenarios in which no script
+	// panics - neither by itself nor through an out-of-order Signal.
+	admits func(sc *tScenario) bool
+}{
+	{"propagate-panic", WithPropagatePanic, func(sc *tScenario) bool { return !sc.panics() }},
+}
+
+// panics: some incarnation of some service is scripted to panic (`fail: "panic"`, or a Signal(Done) without Healthy,
+// which panics inside the supervisor call and unwinds the runnable).
+func (sc *tScenario) panics() bool {
+	for _, l := range sc.scripts {
+		for _, s := range l {
+			if s.fail == "panic" || s.badSig {
+				return true
+			}
+		}
+	}
+	return false
+}
+
+func (sc *tScenario) has(opt string) bool {
+	for _, o := range sc.opts {
+		if o == opt {
+			return true
+		}
+	}
+	return false
+}
+
+func (sc *tScenario) supervisorOpts() []SupervisorOpt {
+	var out []SupervisorOpt
+	for _, o := range tSupervisorOpts {
+		if sc.has(o.name) {
+			out = append(out, o.opt)
+		}
+	}
+	return out
+}
+
+func (sc *tScenario) maxLinger() time.Duration {
+	var lat time.Duration
+	for _, l := range sc.scripts {
+		for _, s := range l {
+			if s.linger > lat {
+				lat = s.linger
+			}
+		}
+	}
+	return lat
 }
 
 type tEvent struct {
@@ -229,6 +292,13 @@ func (r *tRun) service(ctx context.Context) (ret error) {
 			in.exited = true
 			r.logLocked("exit", in, fmt.Sprintf("how=other panic=1 live=%d", tLive(ctx)))
 			r.mu.Unlock()
+			if r.sup.propagatePanic {
+				// No script panics in these scenarios, so a supervisor call has panicked where it must not.  Nothing would
+				// recover it: the process - and with it every trace recorded so far - would be gone.  The panic is in the log
+				// (the model refuses it under this option); hand the supervisor an error instead.
+				ret = fmt.Errorf("verif: panic under WithPropagatePanic: %v", e)
+				return
+			}
 			panic(e)
 		}
 	}()
@@ -443,7 +513,7 @@ func runScenario(sc *tScenario, deadline time.Duration) *tRun {
 	defer cancel()
 	// the processor must not start before r.sup is set: hold the log mutex across New (service() takes it first)
 	r.mu.Lock()
-	r.sup = New(ctx, zap.NewNop(), r.service)
+	r.sup = New(ctx, zap.NewNop(), r.service, sc.supervisorOpts()...)
 	r.sup.mu.Lock()
 	r.tune(r.sup.root)
 	r.sup.mu.Unlock()
@@ -557,15 +627,12 @@ func (r *tRun) write(w *bufio.Writer, cid string) {
 		init, max = int64(500*time.Millisecond), int64(60*time.Second)
 	}
 	// lat: the longest scripted exit latency (time a service keeps running after it saw its context cancelled)
-	var lat time.Duration
-	for _, l := range r.sc.scripts {
-		for _, s := range l {
-			if s.linger > lat {
-				lat = s.linger
-			}
-		}
+	lat := r.sc.maxLinger()
+	opts := "-"
+	if len(r.sc.opts) > 0 {
+		opts = strings.Join(r.sc.opts, ",")
 	}
-	fmt.Fprintf(w, "tr %s name=%s init=%d max=%d lat=%d\n", cid, r.sc.name, init, max, int64(lat))
+	fmt.Fprintf(w, "tr %s name=%s init=%d max=%d lat=%d opts=%s\n", cid, r.sc.name, init, max, int64(lat), opts)
 	for i, e := range r.events {
 		b := e.body
 		if b != "" {
@@ -1266,6 +1333,52 @@ func doneMemberScenarios() []*tScenario {
 	return out
 }
 
+// ---------------------------------------------------------------- supervisor options
+
+// Every back-off in the scenarios that get this bound is <= 72 ms (max interval 48 ms +50 %) and every exit latency
+// <= 400 ms: a service that is not back 4 s after the scenario began will evidently never be started again.
+const tOptionSettle = 4 * time.Second
+
+// optionScenarios: everything the statement says about a service that RETURNS - restart after the back-off, the
+// group cancelled with it, Done left alone, never twice at once, the stop - is said of a supervisor however it was
+// built.  For every non-empty combination of the options supervisor.New accepts (today: WithPropagatePanic, which is
+// what guardiand passes) the scenarios that may run under it (tSupervisorOpts.admits: under WithPropagatePanic those
+// in which no script panics) are run a second time with a supervisor built with these options: every one of the first
+// `nAll` scenarios of `base` (the fixed ones), and of the others - random trees, cancel-inside-the-back-off-window,
+// completed-*, rejected-*, done-member-* - each with probability num/den, drawn from a PRNG of its own.  The scripts
+// are shared with the original (they are read-only); the name gets the option names as a prefix.
+func optionScenarios(r *rand.Rand, base []*tScenario, nAll, num, den int) []*tScenario {
+	var out []*tScenario
+	for mask := 1; mask < 1<<len(tSupervisorOpts); mask++ {
+		var names []string
+		for i, o := range tSupervisorOpts {
+			if mask&(1<<i) != 0 {
+				names = append(names, o.name)
+			}
+		}
+		for i, sc := range base {
+			// the library's own back-off parameters (up to 750 ms per restart): one such scenario per seed is what the budget allows
+			take := !sc.deflt && (i < nAll || r.Intn(den) < num)
+			for j, o := range tSupervisorOpts {
+				if mask&(1<<j) != 0 && !o.admits(sc) {
+					take = false
+				}
+			}
+			if !take {
+				continue
+			}
+			c := *sc
+			c.name = strings.Join(names, "+") + "-" + sc.name
+			c.opts = names
+			if c.settleWait == 0 && c.cancelAfter == "" && c.max <= tMax && c.maxLinger() <= 400*time.Millisecond {
+				c.settleWait = tOptionSettle
+			}
+			out = append(out, &c)
+		}
+	}
+	return out
+}
+
 func TestVerifSupervisorTrace(t *testing.T) {
 	out := os.Getenv("VERIF_OUT")
 	if out == "" {
@@ -1312,6 +1425,16 @@ func TestVerifSupervisorTrace(t *testing.T) {
 	scs = append(scs, rejectedFixed()...)
 	scs = append(scs, rejectedScenarios(rnd, nRejected)...)
 	scs = append(scs, doneMemberScenarios()...)
+	// the same scenarios under the options guardiand builds its supervisor with (appended after everything else, drawn
+	// from a PRNG of their own: the scenarios above are the same for a given seed as before)
+	for _, sc := range scs {
+		if sc.init == 0 && !sc.deflt {
+			sc.init, sc.max = tInit, tMax
+		}
+	}
+	nPlain := len(scs)
+	scs = append(scs, optionScenarios(rand.New(rand.NewSource(seed*15485863+1818)), scs, nFixed, 3, 4)...)
+	t.Logf("scenarios: %d, of which %d with supervisor options", len(scs), len(scs)-nPlain)
 	f, err := os.Create(filepath.Join(out, "supervisor_trace.cases"))
 	if err != nil {
 		t.Fatal(err)
@@ -1324,7 +1447,7 @@ func TestVerifSupervisorTrace(t *testing.T) {
 	}
 	defer started.Close()
 	var wmu sync.Mutex
-	unsettled := 0
+	unsettled, unsettledOpt := 0, 0
 	// Every trace is written (and flushed) as soon as its scenario ends: on a broken supervisor the processor
 	// goroutine can panic, which takes the whole test binary down, and what was observed until then must survive.
 	runBatch := func(batch []*tScenario, base int) {
@@ -1339,6 +1462,13 @@ func TestVerifSupervisorTrace(t *testing.T) {
 				dl := deadline
 				wmu.Lock()
 				// which scenarios are in flight, should the processor goroutine take the process down
+				if len(sc.opts) > 0 && unsettledOpt >= 12 {
+					// a dozen traces in which a supervisor built with options did not restart its services are evidence
+					// enough: the rest of that family would each wait out its settle bound
+					fmt.Fprintf(started, "skipped tr%d name=%s\n", base+i+1, sc.name)
+					wmu.Unlock()
+					return
+				}
 				fmt.Fprintf(started, "start tr%d name=%s\n", base+i+1, sc.name)
 				if unsettled >= 4 {
 					dl = 3 * time.Second // the supervisor is evidently not restarting things: do not wait long for the rest
@@ -1348,6 +1478,9 @@ func TestVerifSupervisorTrace(t *testing.T) {
 				wmu.Lock()
 				if !r.settledOK {
 					unsettled++
+					if len(sc.opts) > 0 {
+						unsettledOpt++
+					}
 				}
 				r.write(w, fmt.Sprintf("tr%d", base+i+1))
 				w.Flush()
